@@ -8,6 +8,9 @@
   objects, `markChain` step, `touch`), for every interpretation of the calls it makes.
 -/
 import Generated.CodeC17
+import Generated.CodeC15
+import Generated.CodeC16
+import Proofs.TieC16
 import Model.Obsolete
 
 namespace DI.Tie.C17
@@ -134,6 +137,92 @@ theorem new_from_generator_goes_through_new (truth : Term → Bool) :
     deco_new_from_generator_wrapper truth =
       Out.ret [] (Term.app "._new" [Term.sym "self",
         Term.app "function" [Term.sym "self", Term.app "*" [Term.sym "args"], Term.app "=**" [Term.sym "kwargs"]]]) := rfl
+
+/-! ### which methods write into the receiver's items — and that exactly those are marked `@deco.obsoletes`
+
+  `Out.writesItems` (Model/PyCore.lean) scans the translated body for a store / `del` / mutating dict method on the loop
+  variable `item`.  The decorator lists are regenerated from the source with the bodies. -/
+
+/-- **every method whose body writes into the receiver's items is `@obsoletes`** (outermost, around
+    `@new_from_generator`: the generator is consumed — all items edited — before the receiver's chain is marked), for
+    every interpretation of the calls made. -/
+theorem writers_are_marked (truth : Term → Bool) :
+    ((ListOfDicts_modify truth).writesItems = true ∧ ListOfDicts_modify_decorators = ["deco.obsoletes", "deco.new_from_generator"]) ∧
+    ((ListOfDicts_modify_if truth).writesItems = true ∧ ListOfDicts_modify_if_decorators = ["deco.obsoletes", "deco.new_from_generator"]) ∧
+    ((ListOfDicts_fill_missing_keys truth).writesItems = true ∧ ListOfDicts_fill_missing_keys_decorators = ["deco.obsoletes", "deco.new_from_generator"]) ∧
+    ((ListOfDicts_unselect truth).writesItems = true ∧ ListOfDicts_unselect_decorators = ["deco.obsoletes", "deco.new_from_generator"]) ∧
+    ((ListOfDicts_left_join truth).writesItems = true ∧ ListOfDicts_left_join_decorators = ["deco.obsoletes", "deco.new_from_generator"]) ∧
+    ((ListOfDicts_inner_join truth).writesItems = true ∧ ListOfDicts_inner_join_decorators = ["deco.obsoletes", "deco.new_from_generator"]) := by
+  refine ⟨⟨?_, rfl⟩, ⟨?_, rfl⟩, ⟨?_, rfl⟩, ⟨?_, rfl⟩, ⟨?_, rfl⟩, ⟨?_, rfl⟩⟩
+  · rfl
+  · rfl
+  · unfold ListOfDicts_fill_missing_keys; split <;> rfl
+  · rfl
+  · rfl
+  · rfl
+
+/-- **the methods that only choose, reorder or add items write into no item and mark nothing**: they are
+    `@new_from_generator` only (a successor list is built, the receiver stays usable without a warning). -/
+theorem non_writers_unmarked (truth : Term → Bool) :
+    ((ListOfDicts_filter truth).writesItems = false ∧ ListOfDicts_filter_decorators = ["deco.new_from_generator"]) ∧
+    ((ListOfDicts_filter_out truth).writesItems = false ∧ ListOfDicts_filter_out_decorators = ["deco.new_from_generator"]) ∧
+    ((ListOfDicts_unique truth).writesItems = false ∧ ListOfDicts_unique_decorators = ["deco.new_from_generator"]) ∧
+    ((ListOfDicts_anti_join truth).writesItems = false ∧ ListOfDicts_anti_join_decorators = ["deco.new_from_generator"]) ∧
+    ((ListOfDicts_semi_join truth).writesItems = false ∧ ListOfDicts_semi_join_decorators = ["deco.new_from_generator"]) ∧
+    ((ListOfDicts_append truth).writesItems = false ∧ ListOfDicts_append_decorators = ["deco.new_from_generator"]) ∧
+    ((ListOfDicts_extend truth).writesItems = false ∧ ListOfDicts_extend_decorators = ["deco.new_from_generator"]) ∧
+    ((ListOfDicts_insert truth).writesItems = false ∧ ListOfDicts_insert_decorators = ["deco.new_from_generator"]) ∧
+    ((ListOfDicts_reverse truth).writesItems = false ∧ ListOfDicts_reverse_decorators = ["deco.new_from_generator"]) ∧
+    ((ListOfDicts_add truth).writesItems = false ∧ ListOfDicts_add_decorators = ["deco.new_from_generator"]) ∧
+    ((ListOfDicts_mul truth).writesItems = false ∧ ListOfDicts_mul_decorators = ["deco.new_from_generator"]) ∧
+    ((ListOfDicts_aggregate truth).writesItems = false ∧ ListOfDicts_aggregate_decorators = ["deco.new_from_generator"]) ∧
+    ((ListOfDicts_sort truth).writesItems = false ∧ ListOfDicts_sort_decorators = []) ∧
+    ((∀ b d l n, (ListOfDicts_head truth b d l n).writesItems = false) ∧ ListOfDicts_head_decorators = []) := by
+  refine ⟨⟨?_, rfl⟩, ⟨?_, rfl⟩, ⟨?_, rfl⟩, ⟨?_, rfl⟩, ⟨?_, rfl⟩, ⟨?_, rfl⟩, ⟨?_, rfl⟩, ⟨?_, rfl⟩, ⟨?_, rfl⟩, ⟨?_, rfl⟩, ⟨?_, rfl⟩, ⟨?_, rfl⟩, ⟨?_, rfl⟩, ⟨?_, rfl⟩⟩
+  · unfold ListOfDicts_filter; dsimp only; repeat' split
+    all_goals rfl
+  · unfold ListOfDicts_filter_out; dsimp only; repeat' split
+    all_goals rfl
+  · unfold ListOfDicts_unique; dsimp only; repeat' split
+    all_goals rfl
+  · rfl
+  · rfl
+  · unfold ListOfDicts_append; split <;> rfl
+  · unfold ListOfDicts_extend; split <;> rfl
+  · unfold ListOfDicts_insert; split <;> rfl
+  · rfl
+  · unfold ListOfDicts_add; split <;> rfl
+  · unfold ListOfDicts_mul; split <;> rfl
+  · rfl
+  · rfl
+  · intro b d l n; unfold ListOfDicts_head; dsimp only; repeat' split
+    all_goals rfl
+
+/-- select and rename build NEW items (they write into no item of the receiver) but are documented as editing methods all
+    the same: they are marked `@obsoletes`. -/
+theorem rebuilders_are_marked (truth : Term → Bool) :
+    ((ListOfDicts_select truth).writesItems = false ∧ ListOfDicts_select_decorators = ["deco.obsoletes", "deco.new_from_generator"]) ∧
+    ((ListOfDicts_rename truth).writesItems = false ∧ ListOfDicts_rename_decorators = ["deco.obsoletes", "deco.new_from_generator"]) :=
+  ⟨⟨rfl, rfl⟩, ⟨rfl, rfl⟩⟩
+
+/-- **aggregate edits only a deep copy**: the one editing call it makes (`select`, which is `@obsoletes`) has as its
+    receiver `self.unique(*by).deepcopy()` — a list whose chain was cut by `__deepcopy__` (`deepcopy_cuts_chain`) — so
+    the mark stops there: a mere `aggregate()` leaves the grouped list and all its ancestors non-obsolete. -/
+theorem aggregate_edits_only_a_deep_copy (truth : Term → Bool) :
+    ∃ rest body inits, ListOfDicts_aggregate truth = Out.fall [rest,
+      Term.app "for" (Term.sym "group" ::
+        Term.app ".sort" [Term.app ".select" [Term.app ".deepcopy" [Term.app ".unique" [Term.sym "self", Term.app "*" [Term.app "._group_keys" [Term.sym "self"]]]],
+          Term.app "*" [Term.app "._group_keys" [Term.sym "self"]]],
+          Term.app "=**" [Term.app "dict.fromkeys" [Term.app "._group_keys" [Term.sym "self"], Term.int 1]]] :: body :: inits)] :=
+  ⟨_, _, _, rfl⟩
+
+/-- full_join writes `_aid_` / `_bid_` and merges only into deep copies of its operands. -/
+theorem full_join_works_on_deep_copies (truth : Term → Bool) :
+    ListOfDicts_full_join_decorators = [] ∧ (ListOfDicts_full_join truth).writesItems = false := by
+  refine ⟨rfl, ?_⟩
+  unfold ListOfDicts_full_join
+  dsimp only
+  split <;> rfl
 
 /-- link to the model: `touch` warns exactly under the same condition. -/
 theorem model_touch_condition (w : World) (r : Nat) (l : LObj) (h : w.lists[r]? = some l) :
